@@ -156,13 +156,14 @@ let run_sim (c : Caseio.case) (r : Caseio.case option) with_sensor =
   match r with
   | None -> ()
   | Some r ->
-    (match observed_L r d with
+    (match (if len = 0 then Some [] else observed_L r d) with
      | None -> Caseio.out_int "no_factor" 1
      | Some l ->
        let zs = if Caseio.has r "draws" then objs_of_row (Caseio.get_mat r "draws") else [] in
        (match c16_sim_ctor fops (const_sq l) dm ts q x0 (n_ len) zs with
-        | None -> Caseio.out_int "no_state" 1
-        | Some st ->
+        | Inl _ -> Caseio.out_str "ctor" "throws_empty"   (* the one-constructor type sim_err is erased by extraction *)
+        | Inr st ->
+          Caseio.out_str "ctor" "ok";
           let tr = c16_sim_target fops no_sq (n_ d) st in
           List.iteri (fun k x -> out_lmx (Printf.sprintf "x%d" k) d 1 x) tr;
           Caseio.out_int "traj_len" (List.length tr);
